@@ -157,3 +157,68 @@ Fixpoint run_blocks (P : pcfg) (nit : nat) (s : pstate) (ops : list op) : option
                  | Crash _ => None
                  end
   end.
+
+(* ================================================================== blocks past directory move-outs (repair of F10) *)
+Require Import WD.Proofs.CoverOutProofs.
+
+(* the pipeline is idle and the reader is synchronised up to junk / has a move-out candidate pending (hot) *)
+Record PSx (P : pcfg) (s : pstate) (hot : option bytes) : Prop := {
+  px_sync : GS (pc_reader P) (p_world s) (p_k s) (p_r s) hot;
+  px_idle : buffer_idle (p_buf s);
+  px_alive : p_stopped s = false;
+  px_tbl : forall id, In id (map fst (p_tbl s)) -> (id < p_next s)%N
+}.
+
+Theorem block_x P s hot o w' : let C := pc_reader P in
+  c_faults C = [] -> c_fix_moveout C = true -> c_mask C = WATCHDOG_ALL -> pc_filter P = None ->
+  PSx P s hot -> step_ok C (p_world s) hot o -> apply_op (p_world s) o = Some w' ->
+  exists nit s' obs raws, prun P s (tie_history P s o nit) [] = Done (s', obs) /\
+    PSx P s' (hot_next C (p_world s) hot o) /\ p_world s' = w' /\
+    p_out s' = p_out s ++ delivered C (pc_full P) w' raws /\
+    read_batch C (w_fs w') (p_r s, drainq (kernel_op (p_k s) (w_fs (p_world s)) o), [])
+               (k_queue (kernel_op (p_k s) (w_fs (p_world s)) o)) = Done (p_r s', p_k s', raws).
+Proof.
+  intros C Hf Hmo Hm HF [G Hidle Hal Htbl] Hs Ha.
+  destruct (gs_step C Hf Hmo (p_world s) (p_k s) (p_r s) hot o w' Hm G Hs Ha) as (r' & k' & raws & Hrd & G' & Hsafe).
+  assert (Hrd' : read_batch (pc_reader P) (w_fs w') (p_r s, kdrained (kernel_op (p_k s) (w_fs (p_world s)) o), [])
+                   (k_queue (kernel_op (p_k s) (w_fs (p_world s)) o)) = Done (r', k', raws)) by exact Hrd.
+  destruct (tie_strong P s o w' r' k' raws HF Hidle Hal Htbl Ha Hrd' Hsafe)
+    as (nit & s' & obs & Hrun & Hout & E1 & E2 & E3 & Hidle' & Hal' & Htbl').
+  exists nit, s', obs, raws. split; [exact Hrun|]. split; [|split; [exact E1|split; [exact Hout|]]].
+  - constructor; try assumption. now rewrite E1, E2, E3.
+  - rewrite E2, E3. exact Hrd.
+Qed.
+
+Inductive block_hist_x (P : pcfg) : pstate -> list op -> list action -> Prop :=
+| bx_nil s : block_hist_x P s [] []
+| bx_skip s o ops h : apply_op (p_world s) o = None -> block_hist_x P s ops h -> block_hist_x P s (o :: ops) (AOp o :: h)
+| bx_step s o ops h nit s1 obs1 w' : apply_op (p_world s) o = Some w' ->
+    prun P s (tie_history P s o nit) [] = Done (s1, obs1) -> block_hist_x P s1 ops h ->
+    block_hist_x P s (o :: ops) (tie_history P s o nit ++ h).
+
+Theorem blocks_cover_x P : let C := pc_reader P in
+  c_faults C = [] -> c_fix_moveout C = true -> c_mask C = WATCHDOG_ALL -> pc_filter P = None ->
+  forall ops s hot, PSx P s hot -> ops_x C (p_world s) hot ops ->
+  exists h s' obs hot', block_hist_x P s ops h /\ prun P s h [] = Done (s', obs) /\ PSx P s' hot' /\
+    Cover C (w_fs (p_world s')) (p_k s') (p_r s').
+Proof.
+  intros C Hf Hmo Hm HF. induction ops as [|o ops IH]; intros s hot S Hc; cbn [ops_x] in Hc.
+  - exists [], s, [], hot. split; [constructor|]. split; [reflexivity|]. split; [exact S|].
+    eapply GS_cover. exact (px_sync _ _ _ S).
+  - destruct (apply_op (p_world s) o) as [w'|] eqn:Ea.
+    + destruct Hc as [Hs Hc].
+      destruct (block_x P s hot o w' Hf Hmo Hm HF S Hs Ea) as (nit & s1 & obs1 & raws & Hrun & S1 & E1 & _).
+      rewrite <- E1 in Hc. destruct (IH s1 _ S1 Hc) as (h & s' & obs & hot' & Hh & Hr & S' & Cv).
+      exists (tie_history P s o nit ++ h), s', (obs1 ++ obs), hot'. split; [eapply bx_step; eassumption|].
+      split; [|split; assumption]. rewrite prun_app, Hrun, prun_acc, Hr. reflexivity.
+    + destruct (IH s hot S Hc) as (h & s' & obs & hot' & Hh & Hr & S' & Cv).
+      exists (AOp o :: h), s', (OSkip :: obs), hot'. split; [now apply bx_skip|]. split; [|split; assumption].
+      cbn [prun pstep]. rewrite Ea. rewrite prun_acc, Hr. reflexivity.
+Qed.
+
+Lemma pinit_psx P w s0 : c_faults (pc_reader P) = [] -> c_fix_moveout (pc_reader P) = true -> wf_fs w ->
+  fisdir (c_root (pc_reader P)) (w_fs w) = true -> pinit P w = Some s0 -> PSx P s0 None /\ p_world s0 = w /\ p_out s0 = [].
+Proof.
+  intros Hf Hmo W Hroot Hi. destruct (pinit_sync P w s0 Hf W Hroot Hi) as ([S Hidle Hal Htbl] & Ew & Eo).
+  split; [|now split]. constructor; try assumption. cbn [GS]. now apply RSync_JSync.
+Qed.
